@@ -587,9 +587,10 @@ func (r *Rec) IterCheck(name string, a, b, n int, stops []int) {
 		for i, stop := range stops {
 			if i > 0 {
 				// read-only calls between the passes: the tree is unchanged, the sequence value must not care
+				// (chosen as a function of the call, not of the PRNG: a re-execution makes the same calls)
 				nk := len(r.D.Universe())
-				r.D.Search(1 + r.R.Intn(nk))
-				r.D.Search(1 + r.R.Intn(nk))
+				r.D.Search(1 + (a+3*b+5*i+len(name))%nk)
+				r.D.Search(1 + (7*a+b+11*i)%nk)
 				r.D.Min()
 				if r.BetweenPasses != nil {
 					r.BetweenPasses()
